@@ -46,6 +46,18 @@ HISTORY = {
     "C12-2": ("caught", ""),
     "C17-1": ("caught", ""),
     "C17-2": ("missed", "C17 aead-siblings/binding-agreement (+ reference-field on the decrypt side)"),
+    "C01-3": ("missed (round 2)", "C09 memory-scope/filter-key-representation (OpenMLS maps are filtered with the MlsCodec-serialised id)"),
+    "C01-4": ("caught (round 2)", ""),
+    "C05-3": ("caught (round 2)", ""),
+    "C05-4": ("caught (round 2)", ""),
+    "C07-3": ("caught (round 2)", ""),
+    "C07-4": ("caught (round 2)", ""),
+    "C09-3": ("caught (round 2)", ""),
+    "C09-4": ("caught (round 2)", ""),
+    "C12-3": ("caught (round 2)", ""),
+    "C12-4": ("missed (round 2)", "C12 sql-bracket/statement-api (multi-statement SQL must go through execute_batch)"),
+    "C16-3": ("caught by a C10 floor only (round 2)", "targetless ON CONFLICT parsed; upsert conflict target must be the primary key (C10 upsert-complete, C08 routing-index, C16 existing-group-untouched)"),
+    "C16-4": ("caught (round 2)", ""),
     "C19-2": ("caught by C09/C12 only", "C19 one-critical-section: only the group-existence pre-check is exempt on SQLite"),
 }
 rows = ["| id | change (needs) | first | now caught by | strengthened |", "|----|----------------|-------|---------------|--------------|"]
